@@ -401,6 +401,10 @@ impl Maybe<Installed> {
                         decreases reader.remaining@.len(),                                        // OBL:C14.installed.then_loop_terminates
 //@before /let end = tag\.to_end\(\);/
                     let ghost rem_at_then = reader.remaining@.len();
+// C01: every statement the agent writes must be readable again - its writer emits at most one term per family, in either
+// order; so a term is refused as "unexpected" only if its family is neither inet nor inet6 or was already read in this statement
+//@check-before-stmt /unexpected address family identifier/ 1
+                            assert(!(family == "inet" && ipv4 is None) && !(family == "inet6" && ipv6 is None));   // OBL:C01.fetch.term_of_a_family_not_yet_read_is_accepted
 //@end
 }
 } // mod installed_stmt
